@@ -141,6 +141,21 @@ def roundtrip_eval(R, lib, ob):
             ud = call(NS + 'LocalDate::toUnixDays', [], recv=a)
             if fields('LocalDate', a) != fields('LocalDate', b) or ud != days + kd:
                 note('R1', c, fd.loc, 'day %d: forUnixDays(%d) has the fields %s, forEpochDays(%d) %s; toUnixDays() is %r' % (days, days + kd, fields('LocalDate', b), days, fields('LocalDate', a), ud))
+        # the two ends of the 32-bit range (every value but the sentinel is a valid instant); the Unix variants are left out here,
+        # they leave the range by definition
+        IMIN, IMAX = -(1 << 31), (1 << 31) - 1
+        f1 = fn(NS + 'LocalDateTime::forEpochSeconds', 1)
+        c = 'LocalDateTime::forEpochSeconds~toEpochSeconds:range-ends'
+        for e in (IMIN + 1, IMIN + 2, IMIN + 11647, IMIN + 11648, IMIN + 11649, IMIN + 86400, IMAX - 86400, IMAX - 11647, IMAX - 1, IMAX):
+            count('R1', c, f1.loc)
+            a = call(f1.name, [e])
+            ee = call(NS + 'LocalDateTime::toEpochSeconds', [], recv=a)
+            if ee != e or fields('LocalDateTime', a) != calendar(e, 0):
+                note('R1', c, f1.loc, 'LocalDateTime::forEpochSeconds(%d) has the fields %s (the calendar says %s) and converts back to %r' % (e, fields('LocalDateTime', a), calendar(e, 0), ee))
+            odt = call(fo.name, [e, offset_obj(0)])
+            back = call(NS + 'OffsetDateTime::toEpochSeconds', [], recv=odt)
+            if back != e:
+                note('R1', c, fo.loc, 'OffsetDateTime::forEpochSeconds(%d, +0 min) converts back to %r' % (e, back))
         # sentinel
         c = 'OffsetDateTime::forEpochSeconds:sentinel'
         count('R1', c, fo.loc)
